@@ -63,6 +63,73 @@ def step_cli(pid, tier, seed):
     return "c17", H.run_engine([H.tool("vgraph"), "c17", "--prop", pid, "--tier", tier, "--seed", str(seed), "--file", cli, "--out", out], out)
 
 
+def step_probe(pid, tier, seed):
+    """C19 through rustc: every single item / same-key pair of the attribute grammar as a real
+    #[derive(Logos)] input on the stable toolchain; a proc-macro panic is a violation, a must-reject
+    definition without an error diagnostic is a violation; the `good` crate must compile."""
+    H.build_tools()
+    pdir = os.path.join(H.ENGINE, "vprobe")
+    H.sh([H.tool("vgraph"), "probe-emit", "--tier", tier, "--out", pdir], timeout=1800)
+    rep = {"engine": "vprobe (rustc, real proc-macro)", "counts": {}, "observed": {}, "violations": [], "samples": [], "notes": [], "bounds": {}, "exhaustive": True}
+    cases = json.load(open(os.path.join(pdir, "bad", "cases.json")))
+    byline = {}
+    for c in cases:
+        for l in range(c["line_start"], c["line_end"] + 1):
+            byline[l] = c
+    p = H.sh(["cargo", "build", "--offline", "--message-format=json", "--target-dir", "target"], cwd=os.path.join(pdir, "bad"), timeout=3600, check=False)
+    errors_in = set()
+    panics = {}
+    ndiag = 0
+    for line in (p.stdout or "").splitlines():
+        if not line.startswith("{"):
+            continue
+        try:
+            m = json.loads(line)
+        except ValueError:
+            continue
+        if m.get("reason") != "compiler-message":
+            continue
+        msg = m["message"]
+        ndiag += 1
+        spans = msg.get("spans") or []
+        c = byline.get(spans[0]["line_start"]) if spans else None
+        if msg.get("level") == "error" and c is not None:
+            errors_in.add(c["n"])
+        if "panicked" in msg.get("message", "") and c is not None:
+            panics.setdefault(c["n"], (c, [ch.get("message", "") for ch in msg.get("children", [])]))
+    if ndiag == 0:
+        raise H.MachineryError("vprobe: rustc produced no diagnostics for the bad crate: " + (p.stdout or "")[-500:])
+    for n, (c, helps) in sorted(panics.items()):
+        rep["violations"].append({"key": "PROC-MACRO-PANIC/" + c["src"], "tag": "PROC-MACRO-PANIC", "case": c["desc"] + ": " + c["src"],
+                                  "detail": "rustc: proc-macro derive panicked; " + "; ".join(helps)[:300], "replay": {"kind": "probe", "tag": "PROC-MACRO-PANIC", "src": c["src"]}})
+    nmust = 0
+    for c in cases:
+        if c.get("must_reject"):
+            nmust += 1
+            if c["n"] not in errors_in:
+                rep["violations"].append({"key": "MUSTREJECT-COMPILES/" + c["src"], "tag": "MUSTREJECT-COMPILES", "case": c["desc"] + ": " + c["src"],
+                                          "detail": f"must be rejected ({c['must_reject']}) but rustc reports no error for this enum", "replay": {"kind": "probe", "tag": "MUSTREJECT-COMPILES", "src": c["src"]}})
+    rep["counts"].update({"evaluations": len(cases), "distinct_nontrivial": len(cases), "must_reject_cases_rustc": nmust, "rustc_diagnostics": ndiag, "programs": len(cases)})
+    rep["samples"].append({"derive_input": cases[len(cases) // 3]["src"], "desc": cases[len(cases) // 3]["desc"]})
+    g = H.sh(["cargo", "build", "--offline", "--message-format=json", "--target-dir", "target"], cwd=os.path.join(pdir, "good"), timeout=3600, check=False)
+    gerrs = []
+    for line in (g.stdout or "").splitlines():
+        if line.startswith("{"):
+            try:
+                m = json.loads(line)
+            except ValueError:
+                continue
+            if m.get("reason") == "compiler-message" and m["message"].get("level") == "error":
+                gerrs.append(m["message"]["message"][:200])
+    ngood = len(json.load(open(os.path.join(pdir, "good", "cases.json"))))
+    rep["counts"]["good_definitions_compiled"] = ngood
+    if g.returncode != 0 or gerrs:
+        rep["violations"].append({"key": "GOOD-FAILS", "tag": "GOOD-FAILS", "case": "valid definitions through the real derive", "detail": "the crate of valid definitions does not compile: " + " | ".join(gerrs[:5]),
+                                  "replay": {"kind": "probe", "tag": "GOOD-FAILS"}})
+    rep["bounds"]["rule"] = "real proc-macro path: all single items and all same-key pairs of the attribute grammar compiled by rustc (stable) through #[derive(Logos)]; the curated corpus + callback/extras/error definitions must compile"
+    return "vprobe", rep
+
+
 def step_readprobe(pid, tier, seed):
     reps = []
     for cfg in ["u-dev", "u-rel", "f-dev", "f-rel"]:
@@ -155,9 +222,9 @@ prop("C18", level="exploration", engine="vgraph",
      text="All permutations of every subset of named arguments for #[token], #[regex], skip(...), and all dependency-respecting permutations of up to 5 items of a combined #[logos(...)] attribute produce the same token stream as the canonical order.",
      note="Equality of generate()'s token string is stronger than lexer equivalence; at most one skip per combined attribute (two skips renumber leaves).", design_ref="5 C18", steps=[step_vgraph("c18")], assumptions=[])
 prop("C19", level="exploration", engine="vgraph",
-     technique="exhaustive enumeration of an attribute grammar (all single items and all pairs) through catch_unwind(generate); must-reject predicates from the reference",
+     technique="exhaustive enumeration of an attribute grammar (all single items and all pairs) through catch_unwind(generate) and (single items + same-key pairs) through rustc with the real proc-macro; must-reject predicates from the reference",
      text="Every single item and every pair of items of the attribute grammar is run through the library entry point: no panic, and every definition carrying a must-reject predicate (nullable, start look-behind, unsupported feature, greedy dot anywhere, undefined subpattern, bad variant shape) yields compile_error!.",
-     note="Library path only in this round; the real proc-macro path (rustc, stable) is added by vprobe.", design_ref="5 C19", steps=[step_vgraph("c19")], assumptions=["span operations behave differently inside rustc; covered by the vprobe step"])
+     note="Two execution paths: the library entry point under catch_unwind, and rustc on the stable toolchain with the real proc-macro (span operations differ there).", design_ref="5 C19", steps=[step_vgraph("c19")], assumptions=["span operations behave differently inside rustc; covered by the vprobe step"])
 
 L2_ASSUME = L1_ASSUME + ["Layer 2 compiles the library expansion (logos_codegen::generate) of a compiled sub-corpus; the proc-macro wrapper is a one-line call of the same function (bound by vderive)",
                          "inputs at Layer 2 are bounded: all strings up to L symbols over a representative alphabet + transition cover x 256 + loop inputs"]
